@@ -26,14 +26,14 @@ def query_handlers(run):
     qf = os.path.join(run.scratch, "props", "Query_conc.v")
     os.makedirs(os.path.dirname(qf), exist_ok=True)
     open(qf, "w").write("From Snoopy Require Import Conc.Tsrm Conc.LockSkel.\nFrom Gen Require Import Gen_Conc.\n"
-                        "Eval vm_compute in (match handlers_of tsrm_fns with Some h => (1, (if h_prepare h then 1 else 0), (if h_parent h then 1 else 0), "
-                        "match h_child h with CNone => 0 | CUnlock => 1 | CReinit => 2 | CReinitClear => 3 end) | None => (0, 0, 0, 0) end).\n")
+                        "Eval vm_compute in (match handlers_of tsrm_fns constructors with Some h => (1, (if h_prepare h then 1 else 0), (if h_parent h then 1 else 0), "
+                        "match h_child h with CNone => 0 | CUnlock => 1 | CReinit => 2 | CReinitClear => 3 end, (if h_preinit h then 1 else 0)) | None => (0, 0, 0, 0, 0) end).\n")
     p = sh(["timeout", "120", "coqc", "-q", "-Q", THEORIES, "Snoopy", "-Q", run.gen, "Gen", qf], check=False)
-    m = re.search(r"=\s*\((\d), (\d), (\d), (\d)\)", p.stdout)
-    hs = tuple(int(x) for x in m.groups()) if m else (0, 0, 0, 0)
-    known, pr, pa, ch = hs
-    open(os.path.join(run.scratch, "consts_%s.tsv" % AREA), "w").write("h_known\t%d\nh_prepare\t%d\nh_parent\t%d\nh_child\t%d\n" % (known, pr, pa, ch))
-    return {"known": bool(known), "prepare": bool(pr), "parent": bool(pa), "child": ch}
+    m = re.search(r"=\s*\((\d), (\d), (\d), (\d), (\d)\)", p.stdout)
+    hs = tuple(int(x) for x in m.groups()) if m else (0, 0, 0, 0, 0)
+    known, pr, pa, ch, pre = hs
+    open(os.path.join(run.scratch, "consts_%s.tsv" % AREA), "w").write("h_known\t%d\nh_prepare\t%d\nh_parent\t%d\nh_child\t%d\nh_preinit\t%d\n" % (known, pr, pa, ch, pre))
+    return {"known": bool(known), "prepare": bool(pr), "parent": bool(pa), "child": ch, "preinit": bool(pre)}
 
 
 def setup_conc(run):
